@@ -96,7 +96,8 @@ struct World {
     fs.write(p, "cgroup.events", std::string(r.chance(50) ? "frozen 0\n" : "") + "populated " + (n.pop ? "1" : "0") + "\n");
     fs.write(p, "memory.oom.group", n.oomg ? "1\n" : "0\n");
     for (auto x : {"trusted.oomd_prefer", "user.oomd_prefer", "trusted.oomd_avoid", "user.oomd_avoid"}) {
-      if (n.prefX.count(x)) fs.setXattr(p, x, "1"); else fs.clearXattr(p, x);
+      // a mark counts by its presence, whatever its value - also an empty one (setfattr -n NAME without -v)
+      if (n.prefX.count(x)) fs.setXattr(p, x, (std::hash<std::string>{}(p + x) % 3 == 0) ? "" : "1"); else fs.clearXattr(p, x);
     }
     fs.write(p, "memory.pressure", psiText(n.ms, n.mf));
     fs.write(p, "io.pressure", psiText(n.ios, n.iof));
